@@ -38,8 +38,11 @@ CLASSES_BASIC: list[list[Any]] = [["pos"], ["neg", 0x31], ["neg", 0x33], ["sil"]
 
 
 def positive_for(svc: int, pdu: bytes) -> bytes:
+    """ISO 14229-1 positive response layouts of the services used here."""
     if svc == 0x2E:
         return bytes([0x6E]) + bytes(pdu[1:3])
+    if svc == 0x22:
+        return bytes([0x62]) + bytes(pdu[1:3]) + b"\xca\xfe"
     return bytes([0x71]) + bytes(pdu[1:4])
 
 
@@ -85,6 +88,7 @@ class FuzzServer(UDSServer):
         self.default = list(model.get("default", ["pos"]))
         self.mutant = mutant
         self.n_fuzz = 0
+        self._after = 1  # ground-truth session after the previous request
         self.conn = 0  # set by the runner on every accepted connection
         self.drop_connection: Any = None  # set by the runner
         self.log: list[dict[str, Any]] = []
@@ -99,8 +103,11 @@ class FuzzServer(UDSServer):
         return None
 
     def _rec(self, truth: int, pdu: bytes, cls: str, nrc: int, fb: bool, resp: Any) -> None:
+        # ib: the session changed between the previous request and this one (the server loop's
+        # inactivity reset): the ECU fell back by itself BEFORE this request
         self.log.append({"t": truth, "c": self.conn, "p": list(pdu), "r": cls, "nrc": nrc, "fb": fb,
-                         "a": None if resp is None else list(resp.pdu)})
+                         "ib": truth != self._after, "a": None if resp is None else list(resp.pdu)})
+        self._after = self.state.session
 
     async def respond(self, request: service.UDSRequest) -> Any:
         pdu = bytes(request.pdu)
